@@ -1039,6 +1039,7 @@ fn gen_plant(g: &mut G, files: &mut Vec<FileGen>, pfile: usize, avoid_known: boo
             }
             let mut args: Vec<String> = f.params.iter().map(|t| lit_of(g.t, t)).collect();
             let how = g.t.below(4);
+            let mut bad_idx: Option<usize> = None;
             let what;
             if how == 3 {
                 // arity
@@ -1052,6 +1053,7 @@ fn gen_plant(g: &mut G, files: &mut Vec<FileGen>, pfile: usize, avoid_known: boo
                 what = "type";
                 let i = g.t.below(args.len());
                 args[i] = wrong_lit(g.t, f.params[i]);
+                bad_idx = Some(i);
             }
             let paren = format!("{}({})", fname, args.join(", "));
             let form = g.t.below(5);
@@ -1062,6 +1064,33 @@ fn gen_plant(g: &mut G, files: &mut Vec<FileGen>, pfile: usize, avoid_known: boo
                 _ => (paren.clone(), "paren"),
             };
             p.spelling = format!("{}-{}-{}", src, what, fname_form);
+            if what == "type" && g.t.chance(1, 4) {
+                // the call laid out over several lines, one argument per line: the planted line is the mismatching argument
+                let bad = bad_idx.unwrap_or(0);
+                let good_lit = |ty: &str| match ty {
+                    "int" => "7",
+                    "str" => "\"ok\"",
+                    "float" => "1.5",
+                    _ => "true",
+                };
+                let mut open = vec![format!("zg{} :: {}(", k, fname)];
+                for a in &args[..bad] {
+                    open.push(format!("    {},", a));
+                }
+                let mut close: Vec<String> = Vec::new();
+                for (n, a) in args[bad + 1..].iter().enumerate() {
+                    let last = bad + 1 + n == args.len() - 1;
+                    close.push(format!("    {}{}", a, if last { "" } else { "," }));
+                }
+                close.push(")".into());
+                let comma = if bad + 1 < args.len() { "," } else { "" };
+                p.wraps.push(Wrap { kind: "call-arg-lines".into(), open, close, inner: 1 });
+                p.spelling = format!("{}-type-multiline-arg{}", src, bad);
+                p.twin = format!("{}{}", good_lit(f.params[bad]), comma);
+                p.line = format!("{}{}", args[bad], comma);
+                decorate(g, &mut p);
+                return p;
+            }
             if fname_form != "prime" && g.t.chance(1, 6) {
                 // the call on its own line inside a multi-line construct
                 let w = if g.t.bool() {
